@@ -50,6 +50,7 @@ import textwrap
 import time
 import traceback
 from concurrent.futures import ProcessPoolExecutor
+import pathlib
 from pathlib import Path
 from urllib.parse import quote as _quote, unquote as _unquote
 
@@ -180,6 +181,8 @@ def micro_stream(drv, rng, n, rep):
             exp.append(["ok"] + impl)
     finally:
         shutil.rmtree(tmp, ignore_errors=True)
+    pagename_requests(rng, max(120, n // 4), reqs, exp)
+    graphnode_requests(rng, max(150, n // 4), reqs, exp)
     got = drv.batch(reqs)
     bad = 0
     for r, e, g in zip(reqs, exp, got):
@@ -188,6 +191,92 @@ def micro_stream(drv, rng, n, rep):
             rep.tie_broken(f"correspondence micro/{r[0]}: model {g} vs implementation {e} on {r[1:]!r}",
                            {"stream": "micro", "request": r, "impl": e, "model": g})
     return len(reqs), bad
+
+
+def pagename_requests(rng, n, reqs, exp):
+    """Round 6: what a static page is called.  (a) `PurePath(name).with_suffix(".html")` of the real pathlib vs the model's
+    `withSuffixHtml` on random names over an alphabet rich in dots; (b) the real `PageNode.path` / `PageNode.url` properties,
+    a real `PagetreePage` (`outfile`, `loc`) and the real registered `relurl` filter applied to the URL of the page from a
+    page in another directory vs `c09.pagename` (regenerated namings) on random (location, stem, linking directory)."""
+    from types import SimpleNamespace
+    import ford.output as fo
+    from ford.pagetree import PageNode
+    from ford.settings import EntitySettings
+
+    def stem_of():
+        if rng.random() < 0.3:
+            return rng.choice(c09_gen.PAGE_DOTTED_LEAF_NAMES + c09_gen.PAGE_LEAF_NAMES + ["index"])
+        return "".join(rng.choice("ab.-1. ") for _ in range(rng.randint(1, 7)))
+
+    for _ in range(n):
+        nm = stem_of()
+        if nm in (".", "") or "/" in nm:
+            continue
+        try:
+            want = str(pathlib.PurePosixPath(nm).with_suffix(".html"))
+        except ValueError:
+            continue
+        reqs.append(["c09.withsuffix", nm])
+        exp.append([want])
+
+    class _Node:
+        path = PageNode.path
+        url = PageNode.url
+
+        def __init__(self, loc, stem, base):
+            self.location, self.filename, self.base_url = Path(loc), Path(stem), Path(base)
+            self.copy_subdir, self.files, self.meta, self.obj, self.name = [], [], EntitySettings(), "page", stem
+
+    dirs = ["sub", "v1.0", "page", "deeper", "rel.2", "a b"]
+    relurl = fo.env.filters["relurl"]
+    out = Path("/o")
+    for _ in range(max(30, n // 3)):
+        stem = stem_of()
+        if stem.startswith(".") or stem.strip() != stem or stem in ("", ".", ".."):
+            continue
+        loc = "/".join(rng.choice(dirs) for _ in range(rng.randint(0, 3))) or "."
+        frm = rng.choice(["", "proc", "lists", "page", "page/" + "/".join(rng.choice(dirs) for _ in range(rng.randint(1, 3)))])
+        node = _Node(loc, stem, out)
+        pg = fo.PagetreePage({"output_dir": out, "page_dir": Path("/src/pages"), "relative": True},
+                             SimpleNamespace(settings=SimpleNamespace(project_url=out)), node)
+        link = relurl(str(node.url), out / frm / "x.html")
+        reqs.append(["c09.pagename", loc, stem, frm or "."])
+        exp.append([os.path.relpath(node.url, out), os.path.relpath(pg.outfile, out), str(pg.loc), link])
+
+
+def graphnode_requests(rng, n, reqs, exp):
+    """Round 6: the real `BaseNode.__init__` on fake entities - every combination of (made from text, has `external_url`,
+    URL / no URL / empty URL, visible, is a binding, its type visible) - vs `c09.graphnode` (regenerated prefix and gates)."""
+    from types import SimpleNamespace
+    import ford.graphs as fg
+    from ford.sourceform import FortranBoundProcedure
+
+    urls = ["module/m.html", "proc/p~2.html", "type/t.html#boundprocedure-b", "interface/operator(+).html", None, ""]
+    for _ in range(n):
+        fromstr, ext, bound = rng.random() < 0.2, rng.random() < 0.2, rng.random() < 0.3
+        vis, pvis, u = rng.random() < 0.7, rng.random() < 0.6, rng.choice(urls)
+        if fromstr:
+            href = rng.choice(["https://example.org/doc/module/m.html", "../elsewhere/x.html"])
+            obj = rng.choice([f"<a href='{href}'>name</a>", f'<a href="{href}">name</a>', "plainname"])
+            node = fg.BaseNode(obj, SimpleNamespace(parent_dir="../"))
+            reqs.append(["c09.graphnode", "1", "0", "-" if obj == "plainname" else href, "1", "0", "1"])
+            exp.append([str(node.attribs.get("URL", "-"))])
+            continue
+        d = dict(ident="x", name="x", visible=vis)
+        if ext:
+            d["external_url"] = "https://example.org/doc"
+        if bound:
+            o = FortranBoundProcedure.__new__(FortranBoundProcedure)
+            o.__dict__.update(d)
+            o.parent = SimpleNamespace(visible=pvis)
+        else:
+            o = SimpleNamespace(**d)
+        o.get_dir = lambda: "module"
+        o.get_url = lambda u=u: u
+        node = fg.BaseNode(o, SimpleNamespace(parent_dir="../"))
+        reqs.append(["c09.graphnode", "0", "1" if ext else "0", "-" if u is None else u, "1" if vis else "0", "1" if bound else "0",
+                     "1" if pvis else "0"])
+        exp.append([str(node.attribs.get("URL", "-"))])
 
 
 # ------------------------------------------------------------------ one site (runs in a worker process)
@@ -341,8 +430,30 @@ def hidden_interface_pages(P):
     return out
 
 
+def _has_iface_function_of_type(P):
+    """Is there, anywhere in the generated project, a function dictionary with a derived-type `rtype` that is rendered as
+    an interface body (it sits in a list that is not `procs` / `internal` of a program unit)?"""
+    found = []
+
+    def walk(x, key):
+        if isinstance(x, dict):
+            if x.get("kind") == "function" and x.get("rtype") not in (None, "integer") and key not in ("procs", "internal", "units"):
+                found.append(x["name"])
+            for k, v in x.items():
+                walk(v, k)
+        elif isinstance(x, list):
+            for v in x:
+                walk(v, key)
+
+    walk(P["files"], "files")
+    return bool(found)
+
+
 def project_features(P):
-    feat = {"module_namelist": False, "localtype": False, "bound": False, "generic_modproc": False, "constructor": False}
+    feat = {"module_namelist": False, "localtype": False, "bound": False, "generic_modproc": False, "constructor": False,
+            # a function whose interface is given by an interface body (interface block, abstract interface, separate module
+            # procedure interface, anywhere) and whose declared result type is a derived type
+            "iface_function_of_type": _has_iface_function_of_type(P)}
     for f in P["files"]:
         for u in f["units"]:
             if u["kind"] == "module":
@@ -416,6 +527,10 @@ def classify(fail, ctx):
             return "C09-entity-str-without-relurl"
         if feat["constructor"] and fail.get("in_constructor_row"):
             return "C09-entity-str-without-relurl"
+    if why == "absolute path" and url.startswith(ctx["out"] + "/type/") and page.startswith("interface/") and fail.get("in_iface_retval") \
+            and fail.get("q") == "'" and feat.get("iface_function_of_type"):
+        # the derived type of the result of a function given by an interface body, in the "Return Value" heading of its page
+        return "C09-interface-result-type-without-relurl"
     if missing and page.startswith("page/") and "/" in path and not path.startswith("../") \
             and path.split("/", 1)[0] in ctx.get("abs_copy_items", {}).get(page, []):
         # a relative link into a directory that the *project-wide* `copy_subdir` setting names, on a static page whose
@@ -599,12 +714,15 @@ def observe_pages(doc, out: Path, site):
             src = Path(page_dir) / o.location / it
             tgt = Path(os.path.normpath(out_dir / "page" / o.location / it))
             if os.path.isabs(its):
-                abs_items.setdefault("page/" + (loc + "/" if loc else "") + str(o.filename) + ".html", []).append(os.path.basename(its))
+                abs_items.setdefault(os.path.relpath(pg.outfile, out_dir).replace(os.sep, "/"), []).append(os.path.basename(its))
             if out_dir not in tgt.parents or not src.is_dir() or os.path.isabs(its) or "/" in its.strip("/") or its in (".", ".."):
                 continue
             items.append({"name": its, "files": sorted(str(f.relative_to(src)).replace(os.sep, "/") for f in src.rglob("*") if f.is_file())})
         nodes.append({"loc": loc, "stem": str(o.filename), "copy_subdir": [str(x) for x in o.copy_subdir],
-                      "own": bool(getattr(o.meta, "copy_subdir", None)), "items": items, "files": [str(x) for x in o.files]})
+                      "own": bool(getattr(o.meta, "copy_subdir", None)), "items": items, "files": [str(x) for x in o.files],
+                      # round 6: what the three places really call the page (relative to base_url / the output directory)
+                      "url": os.path.relpath(o.url, o.base_url).replace(os.sep, "/"),
+                      "outfile": os.path.relpath(pg.outfile, out_dir).replace(os.sep, "/"), "search_loc": str(pg.loc).replace(os.sep, "/")})
     return nodes, sorted(f for f in site.files if f.startswith("page/")), abs_items
 
 
@@ -630,6 +748,7 @@ def run_site(args):
     res = {"k": k, "shape_kind": P["shape"], "opts": P["opts"], "has_pages": bool(P["pages"]), "P": P if keep else None,
            "location": P.get("location", "plain"), "doc_style": {x: P["links"].get(x) for x in ("para_rate", "summary_rate", "list_rate")}}
     _LAST["md"] = []
+    _LAST["graph_nodes"] = set()
     _LAST.pop("md_exc", None)
     _LAST.pop("doc", None)
     _LAST.pop("aliases", None)
@@ -696,6 +815,9 @@ def run_site(args):
         #            disk) and what lies below <out>/page; assets: the settings dictionary the templates saw
         doc = _LAST.get("doc")
         res["page_nodes"], res["page_tree_files"], res["abs_copy_items"] = observe_pages(doc, out, site)
+        # ---------- graphs: the nodes BaseNode.__init__ made (distinct observations), and the pages that carry an inline graph
+        res["graph_nodes"] = sorted(_LAST.get("graph_nodes", ()))
+        res["graph_pages"] = sorted({lk["page"] for lk in site.links if lk["attr"] == "xlink:href" and lk["page"].endswith(".html")})
         res["asset_env"] = observe_assets(doc)
         res["aliases"] = _LAST.get("aliases")
         res["asset_files"] = sorted(f for f in site.files if "/" not in f or f.split("/", 1)[0] in ("css", "js", "webfonts", "search"))
@@ -717,7 +839,10 @@ def run_site(args):
         res["page_tree_hist"] = {"sites with two page directories of the same name": int(any(len(v) > 1 for v in pnames.values())),
                                  "sites with a page directory named like a directory of the output": int(any(
                                      x in pnames for x in ("module", "lists", "proc", "doc", "media", "src") ) or len(pnames.get("page", ())) > 1),
-                                 "sites with static pages": int(bool(pdirs))}
+                                 "sites with static pages": int(bool(pdirs)),
+                                 "sites with a dot in the stem of a page file": int(any("." in n["stem"] for n in res["page_nodes"])),
+                                 "sites with a dot in the name of a page directory": int(any("." in n["loc"] for n in res["page_nodes"])),
+                                 "page files with a dot in the stem": sum(1 for n in res["page_nodes"] if "." in n["stem"])}
         # ---------- property oracle
         fails = site.failures()
         ctx = {"out": str(out), "cwd": cwd, "opts": P["opts"], "shape": shape or c09_gen.shape_counts(P),
@@ -775,6 +900,9 @@ def run_site(args):
             f["after_arrow"] = re.search(r"=(?:>|&gt;)\s*(?:" + item + r",\s*)*<a href='" + re.escape(f["url"]) + "'", ctx3) is not None
             # `<proctype> <strong>{{ proc }}</strong>` in the constructor table of a type summary
             f["in_constructor_row"] = re.search(r"(?:function|subroutine)\s*<strong><a href='" + re.escape(f["url"]) + "'", ctx3) is not None
+            # `<h3>Return Value <span ..></span><small>type(<a href='..'>t</a>)` on the page of an interface body (nongenint_page.html)
+            f["in_iface_retval"] = re.search(r"<h3>Return Value\s*<span class=\"anchor\" id=\"[^\"]*\"></span><small>\s*(?:type|class)\(<a href='"
+                                             + re.escape(f["url"]) + "'", ctx3) is not None
             # is the link inside the documentation of a type local to a procedure?
             f["in_localtype_doc"] = any("local type" in x or "component" in x or "local interface" in x
                                         for x in lines[max(0, ln - 1):ln]) if lines else False
@@ -912,6 +1040,25 @@ def _install_hook():
         return orig_mm(self, *a, **kw)
 
     fm.MetaMarkdown.__init__ = mm_init
+    # round 6: every graph node the run makes: what BaseNode.__init__ looked at and the URL attribute it set
+    import ford.graphs as fg
+    orig_node = fg.BaseNode.__init__
+
+    def node_init(self, obj, graph_data, *a, **kw):
+        r = orig_node(self, obj, graph_data, *a, **kw)
+        try:
+            par = getattr(obj, "parent", None)
+            _LAST.setdefault("graph_nodes", set()).add((
+                "1" if getattr(self, "fromstr", False) else "0", "1" if hasattr(obj, "external_url") else "0",
+                "-" if getattr(self, "url", None) is None else str(self.url),
+                "1" if getattr(obj, "visible", True) else "0",
+                "1" if isinstance(obj, sf.FortranBoundProcedure) else "0", "1" if getattr(par, "visible", True) else "0",
+                str(self.attribs.get("URL", "-")), str(getattr(graph_data, "parent_dir", "?"))))
+        except Exception as e:  # noqa
+            _LAST.setdefault("md_exc", []).append(f"graph node hook: {type(e).__name__}: {e}")
+        return r
+
+    fg.BaseNode.__init__ = node_init
     fp.Project._c09_hooked = True
 
 
@@ -1024,6 +1171,37 @@ def compare_site(r, drv_answers, rep, stats):
                            {"stream": "site", "case": k, "seed": r.get("seed"), "model_only": sorted(model_files - impl_files)[:20],
                             "impl_only": sorted(impl_files - model_files)[:20],
                             "pages": [{x: n[x] for x in ("loc", "stem", "copy_subdir", "files")} for n in r["page_nodes"]][:12]})
+    # --- round 6: the URL attribute of every graph node the run made vs the model's `nodeUrl` on what BaseNode.__init__ looked at;
+    #     the pages that carry an inline graph lie where the model's host templates put them (one directory below the root)
+    for g, ans in zip(r.get("graph_nodes", []), drv_answers.get("graphnode", [])):
+        stats["graph_nodes"] += 1
+        if g[6] != "-":
+            stats["graph_nodes_with_url"] += 1
+        if g[3] == "0" or (g[4] == "1" and g[5] == "0"):
+            stats["graph_nodes_hidden"] += 1
+        if list(ans) != [g[6]]:
+            stats["bad"] += 1
+            rep.tie_broken(f"correspondence site/graphnode: model URL {list(ans)} vs implementation {g[6]!r} for a node with (fromstr, external, url, "
+                           f"visible, bound, parent visible) = {g[:6]} (case {k})",
+                           {"stream": "site", "case": k, "seed": r.get("seed"), "node": list(g), "model": list(ans)})
+    for gp in r.get("graph_pages", []):
+        stats["graph_pages"] += 1
+        if gp.count("/") != 1:
+            stats["bad"] += 1
+            rep.tie_broken(f"correspondence site/graphpage: {gp} carries an inline graph but does not lie one directory below the root "
+                           f"(the model's host templates all do) (case {k})", {"stream": "site", "case": k, "seed": r.get("seed"), "page": gp})
+    # --- round 6: what every real PageNode / PagetreePage of the run calls its page (link URL, file written, search index URL)
+    #     vs the model's names under the regenerated namings
+    for n, ans in zip(r.get("page_nodes", []), drv_answers.get("pagename", [])):
+        stats["page_names"] += 1
+        if "." in n["stem"]:
+            stats["page_names_dotted"] += 1
+        impl = [n.get("url"), n.get("outfile"), n.get("search_loc")]
+        if list(ans[:3]) != impl:
+            stats["bad"] += 1
+            rep.tie_broken(f"correspondence site/pagename: static page {n['loc']}/{n['stem']}.md: model (url, outfile, search url) {list(ans[:3])} "
+                           f"vs implementation {impl} (case {k})",
+                           {"stream": "site", "case": k, "seed": r.get("seed"), "page": {x: n[x] for x in ("loc", "stem")}, "model": list(ans[:3]), "impl": impl})
     # --- assets: the <link>/<script>/<form> URLs of the sampled pages are the asset links the model emits for the real
     #     settings dictionary; the asset files in the output are the ones the model of Documentation.writeout writes
     if r.get("asset_env") is not None and "assetwritten" in drv_answers:
@@ -1203,6 +1381,18 @@ def run(tier: str, seed: int, replay: str | None = None) -> int:
     if pc[2] != "1":
         rep.tie_broken(f"PagetreePage.writeout: the `copy_subdir` loop runs `{pc[0]}`, the `files` loop `{pc[1]}`: a page's own copy_subdir "
                        f"directories / the files of a page directory are not copied for every page that links them")
+    gc = drv.call("c09.graphcheck")
+    if gc[0] != "1":
+        rep.tie_broken(f"graph node URLs: prefix `{gc[1]}/`, visible gate {gc[2]}, binding gate {gc[3]}, foreign URLs kept {gc[4]}, templates that "
+                       f"print a graph with the depth of their pages {gc[5:]}: a node URL does not resolve from every page that prints a graph, "
+                       f"or a hidden entity gets a clickable node (GraphUrl.tablesOk = false on the regenerated tables)")
+    table_variants.update({"graph_parent_dir": gc[1], "graph_hosts": gc[5:]})
+    pn = drv.call("c09.pagenamecheck")
+    if pn[3] != "1":
+        rep.tie_broken(f"static pages: PageNode.url names the page's file by `{pn[0]}`, PagetreePage.outfile by `{pn[1]}`, PagetreePage.loc "
+                       f"(search index) by `{pn[2]}`: for a page file with a dot in its stem the links FORD writes and the file it writes "
+                       f"disagree (PageName.tablesOk = false on the probed namings)")
+    table_variants.update({"page_naming_url": pn[0], "page_naming_outfile": pn[1], "page_naming_search": pn[2]})
     table_variants.update({"copy_subdir_loop_guard": pc[0], "page_files_loop_guard": pc[1], "asset_links_failing_check": failing_assets})
     # ---- state that outlives one text / one page: the Markdown converter, a cache in front of the relurl filter
     mc = drv.call("c09.mdcheck")
@@ -1244,7 +1434,7 @@ def run(tier: str, seed: int, replay: str | None = None) -> int:
             "aborted_runs": {}, "location": {}, "doc_style": {}, "summaries": {}, "assets": {}, "footnotes": {},
             "page_tree": {}}
     stats = {"geturl": 0, "nav_pages": 0, "bad": 0, "strlink": 0, "str_exc": 0, "list_members": 0, "readmore": 0,
-             "page_copies": 0, "page_copy_files": 0, "asset_pages": 0, "asset_files": 0, "aliases": 0, "footnotes": 0}
+             "page_copies": 0, "page_copy_files": 0, "page_names": 0, "page_names_dotted": 0, "graph_nodes": 0, "graph_nodes_with_url": 0, "graph_nodes_hidden": 0, "graph_pages": 0, "asset_pages": 0, "asset_files": 0, "aliases": 0, "footnotes": 0}
     n_links = n_internal = 0
     distinct = set()
     samples = []
@@ -1299,6 +1489,12 @@ def run(tier: str, seed: int, replay: str | None = None) -> int:
                     q += [it["name"], str(len(it["files"]))] + it["files"]
                 q += [str(len(n["files"]))] + n["files"]
                 reqs.append(q)
+            index.append((r["k"], "graphnode", len(reqs), len(r.get("graph_nodes", []))))
+            for g in r.get("graph_nodes", []):
+                reqs.append(["c09.graphnode"] + list(g[:6]))
+            index.append((r["k"], "pagename", len(reqs), len(r.get("page_nodes", []))))
+            for n in r.get("page_nodes", []):
+                reqs.append(["c09.pagename", n["loc"] or ".", n["stem"], "."])
             if r.get("fn_seq"):
                 index.append((r["k"], "footnotes", len(reqs), 1))
                 q = ["c09.footnotes"]
@@ -1313,7 +1509,7 @@ def run(tier: str, seed: int, replay: str | None = None) -> int:
         _tick(f"model batch ({len(reqs)} requests)")
         by_site: dict[int, dict] = {}
         for k, name, start, n in index:
-            by_site.setdefault(k, {})[name] = answers[start] if name not in ("geturl", "strlink", "readmore", "pagecopy") else answers[start:start + n]
+            by_site.setdefault(k, {})[name] = answers[start] if name not in ("geturl", "strlink", "readmore", "pagecopy", "pagename", "graphnode") else answers[start:start + n]
         # ---- evaluate
         for r in results:
             k = r["k"]
@@ -1411,14 +1607,17 @@ def run(tier: str, seed: int, replay: str | None = None) -> int:
     n_ok = sum(1 for r in results if r.get("rc") == 0)
     rep.coverage.update(
         evaluations=ev_micro + len(results) + stats["geturl"] + stats["strlink"] + stats["nav_pages"] + stats["readmore"]
-        + stats["page_copies"] + stats["asset_pages"] + stats["footnotes"],
+        + stats["page_copies"] + stats["asset_pages"] + stats["footnotes"] + stats["page_names"] + stats["graph_nodes"],
         distinct_nontrivial=len(distinct),
         rule="a site case = generated project (shape x options x static pages x doc links) run through ford end-to-end; "
              "distinct by digest of (entity counts as FORD sees them, option combination, page tree present, how the project directory "
              "is reached, icon type / MathJax configuration / kinds of files next to the static pages); all of them reach the mechanism",
         samples=samples,
         traces_validated_against_impl=ev_micro + stats["geturl"] + stats["strlink"] + stats["nav_pages"] + stats["readmore"] + n_ok
-        + stats["page_copies"] + stats["asset_pages"] + stats["footnotes"],
+        + stats["page_copies"] + stats["asset_pages"] + stats["footnotes"] + stats["page_names"] + stats["graph_nodes"],
+        graph_nodes_compared=stats["graph_nodes"], graph_nodes_with_url=stats["graph_nodes_with_url"],
+        graph_nodes_of_hidden_entities=stats["graph_nodes_hidden"], pages_with_inline_graph_checked=stats["graph_pages"],
+        static_pages_compared_names=stats["page_names"], static_pages_with_dotted_stem_compared=stats["page_names_dotted"],
         static_pages_compared_copies=stats["page_copies"], files_below_page_compared=stats["page_copy_files"],
         pages_compared_asset_links=stats["asset_pages"], asset_files_compared=stats["asset_files"],
         correspondence_disagreements=stats["bad"] + bad_micro,
